@@ -133,6 +133,7 @@ func (self *BinaryConv) doRecurse(ctx context.Context, s string, jp int, desc *t
 				}
 				return ret, p.WriteDouble(dv)
 			}
+			return ret, newError(meta.ErrDismatchType, "json string can only convert to thrift STRING type", nil)
 
 		case types.V_ARRAY:
 			if err = expectType2(thrift.LIST, thrift.SET, desc.Type()); err != nil {
